@@ -52,7 +52,7 @@ func LoadEngine(repoDir string, patterns []string) (*Engine, error) {
 	prog.Build()
 	e := &Engine{prog: prog, pkgs: map[string]*packages.Package{}, ssaPkgs: map[string]*ssa.Package{}, funcs: map[string]*ssa.Function{},
 		db: NewSpecDB(), ghostByType: map[string]*GhostField{}, ghostOwnerSort: map[string]string{}, ghostOwnerType: map[string]types.Type{}, repoDir: repoDir,
-		inlineDepth: 3, inlineSize: 60, inlinePkgs: map[string]bool{"github.com/ipfs/go-cid": true}, makeLimit: pow2(62)}
+		inlineDepth: 3, inlineSize: 60, inlinePkgs: map[string]bool{"github.com/ipfs/go-cid": true}, makeLimit: "9223372036854775807"}
 	packages.Visit(pkgs, nil, func(p *packages.Package) {
 		e.pkgs[p.PkgPath] = p
 		if p.Module != nil && p.Module.Main {
@@ -250,7 +250,7 @@ func (e *Engine) VerifyFunction(key string, property string, safety bool) (res *
 	ct := e.db.Contracts[key]
 	c := &Ctx{eng: e, reg: NewRegistry(), fn: fn, contract: ct, property: property, maxPaths: 4000,
 		unknownCalls: map[string]int{}, trustedUsed: map[string]bool{}, inlined: map[string]bool{}, ifaceTypes: map[string]types.Type{},
-		instrOrd: map[ssa.Instruction]int{}, memSorts: map[string]string{}, safety: safety, usedPures: map[string]bool{}, assumedClauses: map[string]bool{}}
+		instrOrd: map[ssa.Instruction]int{}, memSorts: map[string]string{}, safety: safety, usedPures: map[string]bool{}, assumedClauses: map[string]bool{}, skippedAtReturn: map[string]int{}}
 	if ct != nil {
 		if v, ok := ct.FlagArgs["maxpaths"]; ok {
 			fmt.Sscanf(v, "%d", &c.maxPaths)
@@ -319,6 +319,10 @@ func (c *Ctx) run() {
 			st.vars[c.frameVarKey(fr, fv.Name())] = varBinding{val: t, isAddr: true, ty: pt.Elem()}
 		}
 	}
+	fr.paramSet = map[string]bool{}
+	for _, p := range fn.Params {
+		fr.paramSet[p.Name()] = true
+	}
 	fr.env = c.contractEnv(ct, fn.Signature, fn, args, nil)
 	// receiver by its source name even when the signature lost it
 	if fn.Signature.Recv() != nil && len(fn.Params) > 0 {
@@ -369,7 +373,23 @@ func (c *Ctx) run() {
 				// evaluated even when the clause's tags are not selected: evaluation emits the
 				// well-typedness facts of the values it reads, and later proofs must not depend on
 				// which property is being checked
-				g := se.prove(cj)
+				g, unresolved := c.proveAtReturn(se, cj)
+				if unresolved != "" {
+					// the conjunct mentions a local that does not exist at this return point: for
+					// "A ==> B" the obligation is that A is false here; anything else is an error
+					if imp, ok := cj.(*EBinary); ok && imp.Op == "==>" {
+						g2, un2 := c.proveAtReturn(se, &EUnary{"!", imp.L})
+						if un2 != "" {
+							// the antecedent itself speaks about a local that does not exist on this path:
+							// the clause does not apply here (recorded, see evidence "clauses_not_applicable_at_return")
+							c.skippedAtReturn[normSpace(cl.Text)]++
+							continue
+						}
+						g = g2
+					} else {
+						panic(specErr{"postcondition mentions unknown name " + unresolved + " at a return point: " + cj.String()})
+					}
+				}
 				if g == "true" || !c.tagSelected(cl.Tags) {
 					continue
 				}
@@ -586,4 +606,22 @@ func (c *Ctx) feasible(st *State) bool {
 	q := c.reg.Prelude() + strings.Join(st.lines.collect(), "\n") + "\n(check-sat)\n"
 	r := c.eng.solver.quickCheck(q)
 	return r != "unsat"
+}
+
+// proveAtReturn evaluates a postcondition conjunct; when it mentions an identifier that is not
+// bound at this return point (a local variable of a later part of the function) the name is returned.
+func (c *Ctx) proveAtReturn(se *SpecEnv, e Expr) (g string, unresolved string) {
+	defer func() {
+		if r := recover(); r != nil {
+			if se2, ok := r.(specErr); ok && strings.HasPrefix(se2.msg, "unknown identifier ") {
+				unresolved = strings.TrimPrefix(se2.msg, "unknown identifier ")
+				se.pol = 0
+				se.nested = false
+				se.facts = nil
+				return
+			}
+			panic(r)
+		}
+	}()
+	return se.prove(e), ""
 }
